@@ -164,6 +164,28 @@ impl LinearCombination {
         }
 //@end
 
+//@fn id=lc.empty file=poly-commit/src/data_structures.rs scope="impl<F: Field> LinearCombination<F>" name=empty props=C16
+    pub fn empty(label: String) -> (r: Self)
+    ensures
+        r.label == label && r.terms@.len() == 0,   // name=lc.empty.no_terms props=C16
+//@body
+//@rw 1 /label: label\.into\(\)/ => label: label
+//@end
+//@fn id=lc.label file=poly-commit/src/data_structures.rs scope="impl<F: Field> LinearCombination<F>" name=label props=C16
+    pub fn label(&self) -> (r: &String)
+    ensures
+        *r == self.label,   // name=lc.label.is_the_label props=C16
+//@body
+//@end
+//@fn id=lc.push file=poly-commit/src/data_structures.rs scope="impl<F: Field> LinearCombination<F>" name=push props=C16
+    // (the real function returns `self` as `&mut Self` for chaining; the returned reference is dropped here - stated in DESIGN 3.1 under "what the extraction drops")
+    pub fn push(&mut self, term: (Fr, LCTerm))
+    ensures
+        final(self).terms@ == old(self).terms@.push(term) && final(self).label == old(self).label,   // name=lc.push.appends_the_term props=C16
+        forall|sigma: spec_fn(Seq<char>) -> FS| lc_value(final(self).terms@, sigma) == f_add(lc_value(old(self).terms@, sigma), term_value(term, sigma)),   // name=lc.push.value_gains_the_term props=C16
+//@body
+//@rw 1 /(?s)self\.terms\.push\(term\);\s*self\s*\}/ => self.terms.push(term); proof { assert forall|sigma: spec_fn(Seq<char>) -> FS| lc_value(self.terms@, sigma) == f_add(lc_value(old(self).terms@, sigma), term_value(term, sigma)) by { lemma_value_push(old(self).terms@, term, sigma); } } }
+//@end
 //@fn id=lc.is_empty file=poly-commit/src/data_structures.rs scope="impl<F: Field> LinearCombination<F>" name=is_empty props=C16
     pub fn is_empty(&self) -> (r: bool)
     ensures
